@@ -453,6 +453,7 @@ class PoolRun:
 
         class CountingIter:
             def __iter__(self):
+                st["iters"] = st.get("iters", 0) + 1      # (asking for the iterator is already "touching" the iterable)
                 return self
 
             def __next__(self):
@@ -826,8 +827,12 @@ class PoolRun:
             els, exp = self.elements(r, tpl)
             f["exp"] = exp
             it = self.make_iter(r, els)
-            ret = getattr(pool, kind)(func, it, num_concurrent=tpl.get("nc", 1), group_name=gname,
-                                      end_callback=ecb, cancel_callback=ccb)
+            f["iters"] = 0
+            try:
+                ret = getattr(pool, kind)(func, it, num_concurrent=tpl.get("nc", 1), group_name=gname,
+                                          end_callback=ecb, cancel_callback=ccb)
+            finally:
+                f["iters"] = st.get("iters", 0) + st["pulls"]     # __iter__ / __next__ calls made while the request was being decided
         f["ret"] = ret
         st["gname"] = ret
         if ret not in self.names:
